@@ -293,7 +293,8 @@ def others_untouched(new_self, old_self, meta):
     """other molecules and the supplied residues of this molecule keep their entries"""
     new, old = new_self.fields["nonbond_matrix"].fields["posd"], old_self.fields["nonbond_matrix"].fields["posd"]
     mol = old_self.fields["mol_idx"]
-    return z3.ForAll([m_, x_], z3.Implies(z3.Or(m_ != mol, z3.And(z3.Select(meta.fields["nodes"].dom, x_), z3.Not(build_of(meta, x_)))),
+    # only residues of THIS molecule that have to be built may change
+    return z3.ForAll([m_, x_], z3.Implies(z3.Or(m_ != mol, z3.Not(z3.And(z3.Select(meta.fields["nodes"].dom, x_), build_of(meta, x_)))),
                                           z3.And(has(new, m_, x_) == has(old, m_, x_), z3.Implies(has(old, m_, x_), val_eq(new, old, m_, x_)))))
 
 
@@ -323,6 +324,7 @@ RANDOM_WALK = REG.add(Contract(
               "all_built": all_built, "others_untouched": others_untouched, "walker_frame": walker_frame,
               "METAMOL_eq": lambda a, b: METAMOL.eq(a, b), "CNT": CNT, "has": has, "member_def": lambda b: member_def(b),
               "same_rows": lambda a, b: z3.And(a.n == b.n, *[x == y for x, y in zip(a.comps, b.comps)])},
+    modifies=["self.nonbond_matrix.posd", "self.success", "self.placed_nodes", "self.prev_prob", "meta_molecule.root"],
     props=("C17", "C04"),
 ))
 
@@ -494,3 +496,92 @@ UPDATE_BODY = REG5.add(Contract(
 # the caller (_random_walk) is verified against the SAME contract that the body of update_positions is proved to meet
 REG[UPDATE_BODY.target] = UPDATE_BODY
 REG[ENG_GET_POINT.target] = ENG_GET_POINT
+
+
+# ======================================================================================================
+# C17 / C04: BuildSystem._handle_random_walk -- an abandoned attempt is rolled back completely
+# ======================================================================================================
+from pyvc.types import TConst as _TConst
+
+BUILDSYS = TRec("polyply.src.build_system:BuildSystem", nonbond_matrix=ENGINE, box_grid=TList(V3), box=V3,
+                start_dict=TDict(TInt, TOpt(TNode)), rwargs=_TConst({}), maxiter=TInt)
+REGH = Registry()
+for _k in (ENG_REMOVE.target,):
+    REGH[_k] = ENG_REMOVE
+REGH[RANDOM_WALK.target] = RANDOM_WALK
+
+
+def walk_of(bs, mol_idx, molecule, vector_sphere):
+    """the RandomWalk object _handle_random_walk constructs (only the fields the specifications below read)"""
+    from pyvc.types import Rec, Opt, key_term as _kt
+    sd = bs.fields["start_dict"]
+    kt = _kt(sd.k, mol_idx)
+    sn = sd.v.unflat([c[kt] for c in sd.comps])
+    return Rec(WALK.cls, {"mol_idx": mol_idx, "nonbond_matrix": bs.fields["nonbond_matrix"], "start_node": sn, "molecule": molecule,
+                          "vector_sphere": vector_sphere, "maxdim": bs.fields["box"]})
+
+
+def attempt_pre(bs, mol_idx, molecule, vector_sphere):
+    w = walk_of(bs, mol_idx, molecule, vector_sphere)
+    return z3.And(tree_facts(w, molecule), engine_matches_flags(w, molecule))
+
+
+def rolled_back(bs, old_bs, mol_idx, molecule):
+    """no residue the attempt had to build is positioned; supplied residues and all other molecules are exactly as before"""
+    new, old = bs.fields["nonbond_matrix"].fields["posd"], old_bs.fields["nonbond_matrix"].fields["posd"]
+    return z3.ForAll([m_, x_], z3.And(has(new, m_, x_) == has(old, m_, x_), z3.Implies(has(old, m_, x_), val_eq(new, old, m_, x_))))
+
+
+def built_and_others_untouched(bs, old_bs, mol_idx, molecule, vector_sphere):
+    w_new = walk_of(bs, mol_idx, molecule, vector_sphere)
+    w_old = walk_of(old_bs, mol_idx, molecule, vector_sphere)
+    return z3.And(all_built(w_new, molecule), others_untouched(w_new, w_old, molecule))
+
+
+def bs_frame(bs, old_bs):
+    return z3.And(TList(V3).eq(bs.fields["box_grid"], old_bs.fields["box_grid"]), V3.eq(bs.fields["box"], old_bs.fields["box"]),
+                  bs.fields["maxiter"] == old_bs.fields["maxiter"], BUILDSYS.fields["start_dict"].eq(bs.fields["start_dict"], old_bs.fields["start_dict"]),
+                  V3.eq(bs.fields["nonbond_matrix"].fields["boxsize"], old_bs.fields["nonbond_matrix"].fields["boxsize"]))
+
+
+def hook_engine_is_shared(eng, env):
+    """A-ALIAS made explicit: RandomWalk stores a REFERENCE to the engine it is given, so what the walk did to
+    processor.nonbond_matrix is what happened to self.nonbond_matrix"""
+    env["self"] = env["self"].with_field("nonbond_matrix", env["processor"].fields["nonbond_matrix"])
+
+
+HANDLE_WALK = REGH.add(Contract(
+    "polyply.src.build_system:BuildSystem._handle_random_walk",
+    params=dict(self=BUILDSYS, molecule=METAMOL, mol_idx=TInt, vector_sphere=TList(V3)),
+    result=TTuple(TBool, ENGINE),
+    requires={
+        "a start grid": "len(self.box_grid) >= 1",
+        "the molecule has a start entry": "mol_idx in self.start_dict",
+        "search tree facts + exactly the supplied residues of this molecule are positioned (from_topology)": "attempt_pre(self, mol_idx, molecule, vector_sphere)",
+        "more directions than tries per step": "len(vector_sphere) > 80",
+        "positive box": "all([d > 0 for d in self.box])",
+        "ghost: definition of 'one of the vectors handed in'": "member_def(vector_sphere)",
+        "retry budget": "self.maxiter >= 0",
+    },
+    ensures={
+        "an abandoned molecule leaves no residue of the discarded attempts behind: the engine is exactly as before (supplied residues and every other molecule included)":
+            "implies(Not(result[0]), rolled_back(self, old(self), mol_idx, molecule))",
+        "a built molecule has every residue positioned; supplied residues and other molecules are untouched":
+            "implies(result[0], built_and_others_untouched(self, old(self), mol_idx, molecule, vector_sphere))",
+        "the engine handed back is the system's engine": "ENGINE_eq(result[1], self.nonbond_matrix)",
+    },
+    loops={0: Loop({"every failed attempt so far has been rolled back": "rolled_back(self, old(self), mol_idx, molecule)",
+                    "frame": "bs_frame(self, old(self)) and mol_idx == entry['mol_idx'] and METAMOL_eq(molecule, entry['molecule'])"
+                             " and same_rows(vector_sphere, entry['vector_sphere']) and same_rows(built_nodes, entry['built_nodes'])",
+                    "tries": "0 <= step_count and step_count <= self.maxiter"})},
+    ghost={"after:processor.run_molecule(molecule)": hook_engine_is_shared,
+           "after:processor.nonbond_matrix.remove_positions(mol_idx, built_nodes)": hook_engine_is_shared},
+    inline_callees=["polyply.src.random_walk:RandomWalk.__init__", "polyply.src.random_walk:RandomWalk.run_molecule"],
+    spec_fns={"attempt_pre": attempt_pre, "rolled_back": rolled_back, "built_and_others_untouched": built_and_others_untouched,
+              "bs_frame": bs_frame, "member_def": lambda b: member_def(b), "METAMOL_eq": lambda a, b: METAMOL.eq(a, b),
+              "ENGINE_eq": lambda a, b: ENGINE.eq(a, b),
+              "same_rows": lambda a, b: z3.And(a.n == b.n, *[x == y for x, y in zip(a.comps, b.comps)])},
+    modifies=["self.nonbond_matrix.posd"],
+    props=("C17", "C04"),
+    note="instance rwargs = {} (RandomWalk defaults: maxiter 80, nrewind 5, step_fudge 0.8); the clause proved does not depend on them",
+))
